@@ -135,7 +135,7 @@ struct Stats {
   bool byteSeen[256] = {};
   uint64_t nmis = 0;
   std::vector<std::string> mis, samples;
-  uint64_t filtered = 0, archReached = 0, binaries = 0, resets[2] = {0, 0};
+  uint64_t filtered = 0, archReached = 0, binaries = 0, resets[2] = {0, 0}, fromReset = 0;
   uint64_t opcClass[16][3] = {};
 };
 
@@ -144,7 +144,7 @@ static void writeStats(const char *path, Stats &st, uint64_t seed, const char *m
   j.str("mode", mode).unum("seed", seed).unum("cycles", st.cycles).unum("cases", st.cases).unum("stores", st.stores)
    .unum("sysreq", st.sysreq).unum("signals", st.signals).unum("mismatches", st.nmis).unum("filtered", st.filtered)
    .unum("arch_reached", st.archReached).unum("binaries", st.binaries)
-   .unum("resets_over_clock_edge", st.resets[0]).unum("reset_pulses_between_edges", st.resets[1]);
+   .unum("from_reset_cases", st.fromReset).unum("resets_over_clock_edge", st.resets[0]).unum("reset_pulses_between_edges", st.resets[1]);
   std::vector<long long> bs; int nb = 0;
   for (int i = 0; i < 256; i++) { bs.push_back(st.byteSeen[i]); nb += st.byteSeen[i]; }
   j.num("distinct_bytes", nb).raw("bytes_seen", vio::jsonNumArray(bs));
@@ -507,6 +507,34 @@ static void c03Grid(Co &C, Prng &r, unsigned byte, bool viaArch) {
   C.step();
 }
 
+// From reset: the instruction at address 0 (every byte value in turn) is the first one retired after the reset is
+// released, with all registers zero on the architectural side and dirty registers planted in the RTL before the reset.
+static void c03FromReset(Co &C, Prng &r, unsigned firstByte) {
+  for (uint32_t w = 0; w < 24; w++) {
+    uint32_t word = 0;
+    for (int l = 0; l < 4; l++) {
+      unsigned b = (unsigned)r.below(256);
+      if (r.below(3) != 0) b = (unsigned)((r.below(12) << 4) | r.below(16));   // mostly opcodes 0..11
+      word |= b << (8 * l);
+    }
+    if (w == 0) word = (word & ~0xFFu) | firstByte;
+    if (w == 1) word = 1000 + (uint32_t)r.below(100000);                         // a stack pointer for system calls
+    C.poke(w, word);
+  }
+  std::string input; int n = (int)r.below(3);
+  for (int i = 0; i < n; i++) input.push_back((char)r.below(256));
+  C.sim.in.clear(); C.sim.in.str(input);
+  C.world.consoleIn = input; C.world.consolePos = 0; C.world.consoleEof = false; C.world.consoleOut.clear();
+  C.sim.out.clear(); C.sim.out.str("");
+  C.sim.p->verifSetRunning(true); C.ref.running = true;
+  C.rtl.setRegs(dirtyRegs(r.u64())); C.rtl.settle();
+  C.rtl.reset();
+  C.sim.p->verifSetPC(0); C.sim.p->verifSetAreg(0); C.sim.p->verifSetBreg(0); C.sim.p->verifSetOreg(0);
+  C.ref.pc = C.ref.areg = C.ref.breg = C.ref.oreg = 0;
+  for (int k = 0; k < 24; k++) if (!C.step() || !C.ref.running) break;
+  C.st.fromReset++;
+}
+
 static void c03Seq(Co &C, Prng &r) {
   uint32_t base = (uint32_t)r.below(MEM_WORDS * 4 - 16384);
   uint32_t pc = base + 64 + (uint32_t)r.below(8);
@@ -618,6 +646,14 @@ static int c03Main(int argc, char **argv) {
       C.ctx = "grid:" + std::to_string(sidx * 256 + byte);
       c03Grid(C, r, byte, r.below(50) == 0);
       st.cases++;
+    }
+    if (sidx % 8 == 0) {
+      for (unsigned byte = 0; byte < 256; byte++) {
+        Prng r(seed, 3, (uint64_t)(sidx * 256 + byte));
+        C.ctx = "from-reset:" + std::to_string(sidx * 256 + byte);
+        c03FromReset(C, r, byte);
+        st.cases++;
+      }
     }
   }
   for (long q = 0; q < nseq; q++) {
